@@ -1,7 +1,7 @@
 use crate::co_pool::CoroutinePool;
 use crate::common::beans::BeanFactory;
 use crate::common::constants::{CoroutineState, PoolState, SyscallName, SyscallState, SLICE};
-use crate::net::selector::{Event, Events, Poller, Selector};
+use crate::net::selector::{Events, Poller, Selector};
 use crate::scheduler::SchedulableCoroutine;
 use crate::{error, impl_current_for, impl_display_by_debug, info};
 use dashmap::DashSet;
@@ -180,6 +180,24 @@ impl<'e> EventLoop<'e> {
             .add_write_event(fd, EventLoop::token(SyscallName::nio()))
     }
 
+    /// The caller's wait for `fd` to become readable is over, however it ended.
+    pub(super) fn end_read_wait(&self, fd: c_int) {
+        self.selector.end_read_wait(fd, EventLoop::waiter_token());
+    }
+
+    /// The caller's wait for `fd` to become writable is over, however it ended.
+    pub(super) fn end_write_wait(&self, fd: c_int) {
+        self.selector.end_write_wait(fd, EventLoop::waiter_token());
+    }
+
+    /// The token `add_read_event`/`add_write_event` recorded for the caller.
+    fn waiter_token() -> u64 {
+        if let Some(co) = SchedulableCoroutine::current() {
+            return co.id();
+        }
+        EventLoop::token(SyscallName::nio())
+    }
+
     pub(super) fn del_event(&self, fd: c_int) -> std::io::Result<()> {
         self.selector.del_event(fd)
     }
@@ -286,8 +304,8 @@ impl<'e> EventLoop<'e> {
         }
         #[allow(clippy::explicit_iter_loop)]
         for event in events.iter() {
-            let token = event.get_token();
-            if event.readable() || event.writable() {
+            // the event names the descriptor, the selector knows who waits for it right now
+            for token in self.selector.waiters_of(event) {
                 unsafe { self.resume(token) };
             }
         }
